@@ -428,6 +428,7 @@ def _finish_path(ob, params, pid, ctx, out, st, listed):
                 # a model on a decision boundary may legitimately differ in doubles: retry with
                 # another model of the same path before calling it a disagreement
                 ok = False
+                n_feasible = None
                 base = model
                 for attempt in range(4):
                     alt = _alt_model(ctx, base, attempt)
@@ -451,10 +452,12 @@ def _finish_path(ob, params, pid, ctx, out, st, listed):
                     reals = [n for n, (k, _v) in ctx.inputs.items() if k == "real"]
                     plan = [(n, sg * sc) for sc in (1e-3, 1e-1, 1e-5) for n in reals for sg in (1, -1)]
                     plan += [(None, 10.0 ** -(1 + a % 4)) for a in range(12)]
+                    n_feasible = 0
                     for only, scale in plan:
                         cand = _perturbed_model(ctx, model, rng, scale, only)
                         if cand is None:
                             continue
+                        n_feasible += 1
                         inputs2 = symx.model_inputs(ctx, cand)
                         conc2, _ = run_concrete(ob, params, inputs2)
                         if conc2 is not None and obs_equal(norm_obs(out.obs, cand), conc2["obs"]):
@@ -462,6 +465,12 @@ def _finish_path(ob, params, pid, ctx, out, st, listed):
                             break
                 if ok:
                     st["witness_ok"] += 1
+                elif n_feasible == 0:
+                    # the path region has empty interior around its models (ties / exact equalities): every nearby
+                    # point leaves it, so a run in doubles cannot be expected to follow this path
+                    st["witness_skipped"] += 1
+                    st.setdefault("witness_degenerate", 0)
+                    st["witness_degenerate"] += 1
                 else:
                     st["witness_mismatch"].append(
                         {"inputs": inputs, "symbolic": sym_obs, "concrete": conc["obs"], "params": _jsonable(params)}
